@@ -8,6 +8,7 @@ import (
 	"strconv"
 	"strings"
 	"testing/synctest"
+	"verif/sim/kernel"
 
 	"github.com/algorand/go-algorand/agreement"
 	"github.com/algorand/go-algorand/config"
@@ -116,7 +117,19 @@ func (o *catchpointObs) note(s *Sim, who string, m map[basics.Round]string, labe
 			o.compared++
 			s.stat("catchpoint_label_compared", 1)
 			if ol != label {
-				s.violate("C14", "label-differs", "", fmt.Sprintf("catchpoint round %d: %s produced %s but %s produced %s from the same block history", r, who, label, names[i], ol))
+				if cr, what := s.kvCollisionBefore(r); what != "" && kernel.KnownKey("C14", "kv-leaf-collision") {
+					// two kv pairs shared one trie leaf at round cr: which leaf operations survive depends on how each node
+					// batched its commits (open finding, same root cause as C15/kv-boundary-shift and C16/kv-leaf-collision)
+					s.known = append(s.known, kernel.Violation{Property: "C14", Oracle: "label-differs", Key: "kv-leaf-collision", Step: s.step,
+						Detail: fmt.Sprintf("catchpoint round %d: %s produced %s but %s produced %s; the history held colliding kv pairs at round %d: %s", r, who, label, names[i], ol, cr, what)})
+					s.stat("known.kv-leaf-collision", 1)
+					return
+				}
+				key := ""
+				if _, what := s.kvCollisionBefore(r); what != "" {
+					key = "kv-leaf-collision"
+				}
+				s.violate("C14", "label-differs", key, fmt.Sprintf("catchpoint round %d: %s produced %s but %s produced %s from the same block history", r, who, label, names[i], ol))
 				return
 			}
 		}
